@@ -17,3 +17,6 @@ import Csproto.Bridge.Templates
 #print axioms Csproto.Bridge.Templates.shim_leaves_unknown_store_alone
 #print axioms Csproto.C07.reserved_numbers_are_undefined_numbers
 #print axioms Csproto.Bridge.Templates.generator_ignores_reserved
+#print axioms Csproto.C07.nested_children_dispatched_by_capability
+#print axioms Csproto.Bridge.encodeNested_arms_ok
+#print axioms Csproto.Bridge.size_probes_ok
